@@ -84,6 +84,12 @@ def run(eng, rep) -> None:
     rep.rule("R14.3", "C: registered size check == layout size > 64; registration and verification dominate generation")
     rep.rule("R14.4", "signal extents in both writers are the leaf's own (bitstart, bitlength) of the tiling layout (no override from options): signals cannot overlap or leave the message")
     rep.rule("R14.5", "the rejection exception is not swallowed before the plug-in's generate() exits; generate() is eager")
+    rep.rule("R14.7", "the nodes that checks run over are not read back from a mapping keyed by an attribute (equal keys collapse)")
+    from .lints import population_through_dict
+    population_through_dict(eng, rep, "R14.7", ("fcp.verifier",), "nodes that share a name with a later one (an impl named like another protocol's impl) are never verified, so what the checks would reject reaches the generators")
+    rep.rule("R14.6", "groups made by itertools.groupby over an unsorted registry are not stored by key with overwrite")
+    from .lints import groupby_overwrite
+    groupby_overwrite(eng, rep, "R14.6", ("fcp.verifier", "fcp_dbc", "fcp_can_c"), "checks registered earlier under that category are never run, so an oversized message they would reject is generated")
     rep.assume("leaf extents and dlc come from the tiling cursor (C04/C05/C06); cantools is not re-checked")
     r144(eng, rep)
     # ---- R14.1 -------------------------------------------------------------------------
